@@ -495,3 +495,23 @@ benign("c16-explicit-dispatch-table", ["C16", "C10"], [(M, '''            if aut
             if ok:
                 self.authenticated = True
             return ok''')])
+
+# --------------------------------------------------------------------------- C17
+seeded("d1-size-test-in-listing", ["C17"], "D1", [(M, '''        for l in listing.splitlines():
+            m = re.match''', '''        for l in listing.splitlines():
+            if self.__size_expr.match(l):
+                continue
+            m = re.match''')], "pre-fix behaviour")
+seeded("d1-status-test-in-getscript", ["C17"], "D1", [(M, '''            lines = content.splitlines()
+            return''', '''            lines = [x for x in content.splitlines() if not self.__respcode_expr.match(x)]
+            return''')], "drops script lines starting with OK/NO/BYE")
+NAMEPAT = 'rb\'"((?:[^"\\\\]|\\\\.)*)"\\s*(.*)\''
+seeded("d2-name-pattern-no-escapes", ["C17"], "D2", [(M, NAMEPAT, 'rb\'"([^"]*)"\\s*(.*)\'')], "pre-fix language")
+seeded("d2-no-unescape", ["C17"], "D2", [(M, '''script = re.sub(rb"\\\\(.)", rb"\\1", m.group(1)).decode("utf-8")''', '''script = m.group(1).decode("utf-8")''')])
+seeded("d4-strip-lines", ["C17"], "D4", [(M, '''return "\\n".join([line.decode("utf-8") for line in lines])''', '''return "\\n".join([line.strip().decode("utf-8") for line in lines])''')], "indentation of the script is lost")
+seeded("d4-skip-blank-lines", ["C17"], "D4", [(M, '''return "\\n".join([line.decode("utf-8") for line in lines])''', '''return "\\n".join([line.decode("utf-8") for line in lines if line])''')])
+seeded("d4-drop-first-line", ["C17"], "D4", [(M, '''            lines = content.splitlines()
+            return''', '''            lines = content.splitlines()[1:]
+            return''')])
+seeded("d5-active-anywhere", ["C17"], "D5", [(M, "if self.__active_expr.match(m.group(2)):", "if self.__active_expr.search(l):")], "a script called \"inactive\" becomes the active one")
+benign("c17-name-pattern-equivalent", ["C17"], [(M, NAMEPAT, 'rb\'"((?:\\\\.|[^"\\\\])*)"[ \\t]*(.*)\'')])
